@@ -21,6 +21,7 @@ def load_all(prop_cfg):
     w = World()
     for p in sorted(glob.glob(os.path.join(VERIF, "specs", "*.py"))):
         w.load_specs(p)
+    dsl.REG.world = w
     for m in prop_cfg["contracts"]:
         importlib.import_module("contracts." + m)
     return w
